@@ -21,6 +21,7 @@ import (
 func init() { Registry["C06"] = c06 }
 
 type wireSample struct {
+	md     protoreflect.MessageDescriptor // message type of the instance (for coordinate paths)
 	caseID string
 	docKey string
 	schema any // use-site schema (already closed)
@@ -168,7 +169,7 @@ func c06(c *Ctx) {
 					continue
 				}
 				for _, e := range out.byKind("wire") {
-					c06collect(addSample, e, op, docKey, fmt.Sprintf("%s/ctx=%s", base, ctx), lv.Class, protoText)
+					c06collect(addSample, e, op, docKey, fmt.Sprintf("%s/ctx=%s", base, ctx), lv.Class, protoText, ctxMD)
 				}
 			}
 			if ctx != "top" {
@@ -183,7 +184,7 @@ func c06(c *Ctx) {
 					continue
 				}
 				for _, e := range out.byKind("wire") {
-					c06collect(addSample, e, op, docKey, fmt.Sprintf("%s/ctx=%s", base, ctx), rv.Class, protoText)
+					c06collect(addSample, e, op, docKey, fmt.Sprintf("%s/ctx=%s", base, ctx), rv.Class, protoText, ctxMD)
 				}
 			}
 			// error responses: malformed body -> 400 ; handler error -> 500
@@ -233,7 +234,11 @@ func c06(c *Ctx) {
 		c.R.Count("instances_validated", 1)
 		if !*r.Valid {
 			kw := r.Keyword
-			c.R.Violate(s.caseID, "wire-json-violates-openapi", kw+" "+depthOf(r.Path), map[string]any{"proto": s.proto, "what": s.what, "instance": s.raw, "schema": s.schema, "validator_error": r.Error})
+			where := depthOf(r.Path)
+			if s.md != nil {
+				where = jsonmap.RolePath(s.md, r.Path)
+			}
+			c.R.Violate(s.caseID, "wire-json-violates-openapi", "role:"+kw+" "+where, map[string]any{"proto": s.proto, "what": s.what, "instance": s.raw, "schema": s.schema, "validator_error": r.Error})
 		} else if r.SchemaError != "" {
 			c.R.Violate(s.caseID, "invalid-schema", r.SchemaError, map[string]any{"proto": s.proto, "schema": s.schema})
 		}
@@ -250,15 +255,15 @@ func mustTree(enc *jsonmap.Encoder, m *dynamicpb.Message) any {
 	return t
 }
 
-func c06collect(add func(wireSample), e lab.Event, op oas.Op, docKey, base, class, protoText string) {
+func c06collect(add func(wireSample), e lab.Event, op oas.Op, docKey, base, class, protoText string, md protoreflect.MessageDescriptor) {
 	if body := unb64(e.Str("body")); len(body) > 0 {
 		if t, err := jsonmap.Parse(body); err == nil && op.ReqSchema != nil {
-			add(wireSample{caseID: base + "/dir=request@" + class, docKey: docKey, schema: closed(op.ReqSchema), inst: t, what: "Go client request body", proto: protoText, raw: string(body)})
+			add(wireSample{md: md, caseID: base + "/dir=request@" + class, docKey: docKey, schema: closed(op.ReqSchema), inst: t, what: "Go client request body", proto: protoText, raw: string(body)})
 		}
 	}
 	if e.Int("status") == 200 {
 		if t, err := jsonmap.Parse(unb64(e.Str("resp_body"))); err == nil {
-			add(wireSample{caseID: base + "/dir=response@" + class, docKey: docKey, schema: closed(op.Responses["200"]), inst: t, what: "Go server 200 response body", proto: protoText, raw: string(unb64(e.Str("resp_body")))})
+			add(wireSample{md: md, caseID: base + "/dir=response@" + class, docKey: docKey, schema: closed(op.Responses["200"]), inst: t, what: "Go server 200 response body", proto: protoText, raw: string(unb64(e.Str("resp_body")))})
 		}
 	}
 }
